@@ -9,6 +9,8 @@ from economic.py on every run.  All theorems hold for every network description,
 import WntrModel.Model.Metrics
 import WntrModel.Gen.Tables
 import WntrModel.Gen.MetricsFormulas
+import WntrModel.Gen.PatternFormulas
+import WntrModel.Lemmas.MetricsShape
 import WntrModel.Model.MExpr
 import WntrModel.Lemmas.MetricsExpr
 import WntrModel.Lemmas.MetricsSum
@@ -792,5 +794,115 @@ example : evalO (piEnv 3) (tankRow (.curve [(0, 0), (2, 10), (4, 40)]) 0 4 0 5) 
 -- half-to-even rounding of the population
 example : evalO { glob := { num := fun | .R => 2 | _ => 0 } } { num := fun | .averageExpectedDemand => 5 | _ => 0 }
     Gen.population = some 2 := by decide +kernel
+
+end Wntr.Metrics
+
+/-! ## Control flow regenerated from the source
+
+`Gen/PatternFormulas.lean` is written by harness/props/c20_shape.py on every run: a syntax-directed transliteration
+(python ast -> Lean text) of Pattern.at, TimeSeries.at, Demands.at, _interp_extrapolate (wntr/network/elements.py) and
+_gcd (while loop -> fuel), _lcm, _lcml and the window of average_expected_demand (wntr/metrics/hydraulic.py).
+Each generated definition is proved equal, for all inputs, to the hand model the other theorems are about
+(Model/Pattern.lean — shared with C01's demand formula — and Model/Metrics.lean): an edit of the index arithmetic, of the
+wrap / interpolation branches, of `_gcd` / `_lcm` or of the averaging window breaks the theorem named after it. -/
+namespace Wntr.Metrics
+open Wntr.Pattern
+
+
+theorem patternAt_gen_eq (p : Pat) (step : Int) (interp : Bool) (t : Int) :
+    GenShape.patternAt p.mults p.wrap step interp t = p.at step interp t := by
+  unfold GenShape.patternAt Pat.at Pat.get
+  by_cases h0 : p.mults.length = 0
+  · simp [h0]
+  by_cases h1 : p.mults.length = 1
+  · simp [h1]
+  have hi0 : ¬ ((p.mults.length : Int) = 0) := by omega
+  have hi1 : ¬ ((p.mults.length : Int) = 1) := by omega
+  have hm : 0 ≤ t / step % (p.mults.length : Int) := Int.emod_nonneg _ hi0
+  have e1 : (t / step % (p.mults.length : Int) + 1).toNat = (t / step % (p.mults.length : Int)).toNat + 1 := by omega
+  have e2 : (t / step % (p.mults.length : Int) + 1 = (p.mults.length : Int))
+      ↔ ((t / step % (p.mults.length : Int)).toNat + 1 = p.mults.length) := by omega
+  simp only [h0, h1, hi0, hi1, if_false, e1, e2]
+  cases p.wrap <;> cases interp <;> simp
+
+
+theorem timeSeriesAt_gen_eq (d : TS) (step : Int) (interp : Bool) (t : Int) :
+    GenShape.timeSeriesAt d step interp t = d.at step interp t := by
+  unfold GenShape.timeSeriesAt TS.at
+  cases hp : d.pat with
+  | none => simp
+  | some p => by_cases h : p.mults.length = 0 <;> simp [h, patternAt_gen_eq]
+
+theorem demandsAt_gen_eq (l : List TS) (step : Int) (interp : Bool) (cat : Option String) (m : Rat) (t : Int) :
+    GenShape.demandsAtGen l step interp cat m t = demandsAt l step interp cat m t := by
+  unfold GenShape.demandsAtGen demandsAt
+  rcases cat with _ | c
+  · simp only [catSelected, timeSeriesAt_gen_eq]
+    simp
+  · by_cases hc : c = ""
+    · subst hc
+      simp [catSelected, timeSeriesAt_gen_eq]
+    · simp only [catSelected, timeSeriesAt_gen_eq, hc]
+      simp [hc]
+
+theorem gcd_gen_eq (fuel : Nat) (x y : Int) : GenShape.gcdGen fuel x y = gcdLoop fuel x y := by
+  unfold GenShape.gcdGen
+  induction fuel generalizing x y with
+  | zero => simp [GenShape.gcdGen_loop1, gcdLoop]
+  | succ n ih =>
+    unfold GenShape.gcdGen_loop1 gcdLoop
+    by_cases hy : y = 0
+    · simp [hy]
+    · by_cases hn : y < 0 <;> simp [hy, hn] <;> exact ih _ _
+
+theorem lcm_gen_eq (x y : Int) : GenShape.lcmGen x y = pyLcm x y := by
+  simp [GenShape.lcmGen, pyLcm, pyGcd, gcd_gen_eq]
+
+theorem lcml_gen_eq (a : Int) (rest : List Int) : GenShape.lcmlGen (a :: rest) = lcml a rest := by
+  have : GenShape.lcmGen = pyLcm := by funext x y; exact lcm_gen_eq x y
+  simp [GenShape.lcmlGen, lcml, this]
+
+
+/-- the list `L[1:]` the loop of average_expected_demand builds -/
+theorem avgWindow_foldl (lens : List Nat) (step : Int) (L : List Int) :
+    lens.foldl (fun (L : List Int) (pattern : Nat) =>
+        if ((List.replicate pattern (0 : Rat)).length : Int) > 0 then L ++ [((List.replicate pattern (0 : Rat)).length : Int) * step] else L) L
+      = L ++ (lens.filter (· ≠ 0)).map (fun (n : Nat) => (n : Int) * step) := by
+  induction lens generalizing L with
+  | nil => simp
+  | cons n t ih =>
+    rw [List.foldl_cons, ih]
+    by_cases hn : n = 0
+    · simp [hn]
+    · have : 0 < n := by omega
+      simp [hn, this]
+
+theorem avgWindow_gen_eq (net : DemandNet) :
+    GenShape.avgWindowGen net.patLens net.step net.patternStart
+      = (net.patternStart, net.patternStart + period net - net.step, net.step) := by
+  unfold GenShape.avgWindowGen
+  simp only []
+  rw [avgWindow_foldl]
+  simp [lcml_gen_eq, period, patPeriods]
+
+theorem interpExtrapolate_gen_eq (pts : List (Rat × Rat)) (x : Rat) :
+    GenShape.interpExtrapolateGen x (pts.map Prod.fst) (pts.map Prod.snd) = interpX pts x := by
+  unfold GenShape.interpExtrapolateGen interpX
+  have hz : List.zip (pts.map Prod.fst) (pts.map Prod.snd) = pts := by
+    induction pts with
+    | nil => rfl
+    | cons a t ih => simp [ih]
+  simp only [hz, List.length_map, min_form, max_form]
+  match pts, hz with
+  | [], _ => simp
+  | [a], _ => simp
+  | a :: b :: t, _ =>
+    have hl : 2 ≤ (a :: b :: t).length := by simp
+    have h1 : ((a :: b :: t).length : Int) > 1 := by simp
+    rw [lastTwo_spec _ hl]
+    simp only [h1, if_true]
+    rw [getD_map_fst _ _ (by simp), getD_map_fst _ _ (by simp), getD_map_fst _ _ (by simp), getD_map_fst _ _ (by simp; omega),
+      getD_map_snd _ _ (by simp), getD_map_snd _ _ (by simp), getD_map_snd _ _ (by simp), getD_map_snd _ _ (by simp; omega)]
+    simp
 
 end Wntr.Metrics
